@@ -52,7 +52,7 @@ func TestSweep(t *testing.T) {
 		Oracle.One(t, env, rec, "sweep", &Case{T: tn, C: C, Kr: fr, A: 0, B: fr, Srcs: []Src{{Kind: "self"}}})
 	}
 	// channel counts around 65536
-	for _, C := range []int{65535, 65536, 65537, 70001} {
+	for _, C := range []int{255, 256, 257, 65535, 65536, 65537, 70001} {
 		Oracle.One(t, env, rec, "sweep", &Case{T: "int8", C: C, Kr: 3, A: 0, B: 1, Srcs: []Src{{Kind: "sep", Kr: 2, A: 0, B: 2}, {Kind: "sep", Kr: 3, A: 0, B: 3}}})
 	}
 	// wide frames (16, 32, 64, 65 channels): growth lands on runtime size classes that need not be multiples of the frame
